@@ -49,10 +49,18 @@ func nsxNodeOf(c *gen.NConf, foreign bool) *nsxdev.Node {
 			map[string]any{"id": "e1", "resource_type": "IPAddressExpression", "ip_addresses": []any{"10.50.0.1", "10.50.0.2"}}}})
 		n.Services = append(n.Services, nsxdev.Obj{"id": "HTTPS", "service_entries": []any{
 			map[string]any{"id": "HTTPS", "resource_type": "L4PortSetServiceEntry", "l4_protocol": "TCP", "destination_ports": []any{"443"}, "source_ports": []any{}}}})
+		// ... and objects that merely carry "Netspoc" somewhere in their id.
+		n.Groups = append(n.Groups, nsxdev.Obj{"id": "Backup-Netspoc-g0", "expression": []any{
+			map[string]any{"id": "e2", "resource_type": "IPAddressExpression", "ip_addresses": []any{"10.51.0.1"}}}})
+		n.Services = append(n.Services, nsxdev.Obj{"id": "Copy-of-Netspoc-tcp_80", "service_entries": []any{
+			map[string]any{"id": "x", "resource_type": "L4PortSetServiceEntry", "l4_protocol": "TCP", "destination_ports": []any{"80"}, "source_ports": []any{}}}})
 		n.Policies = append(n.Policies, &nsxdev.Policy{ID: "manual-policy", Attrs: nsxdev.Obj{"display_name": "manual"},
 			Rules: []nsxdev.Obj{{"id": "m1", "action": "ALLOW", "sequence_number": 10, "direction": "IN_OUT",
 				"source_groups": []any{"/infra/domains/default/groups/ext-servers"}, "destination_groups": []any{"ANY"},
-				"services": []any{"/infra/services/HTTPS"}, "scope": []any{"/infra/tier-0s/v1"}}}})
+				"services": []any{"/infra/services/HTTPS"}, "scope": []any{"/infra/tier-0s/v1"}},
+				{"id": "m2", "action": "ALLOW", "sequence_number": 20, "direction": "IN_OUT",
+					"source_groups": []any{"/infra/domains/default/groups/Backup-Netspoc-g0"}, "destination_groups": []any{"ANY"},
+					"services": []any{"/infra/services/Copy-of-Netspoc-tcp_80"}, "scope": []any{"/infra/tier-0s/v1"}}}})
 	}
 	return n
 }
